@@ -967,12 +967,12 @@ func (s *S3Proxy) GetObjectAttributes(ctx context.Context, input *s3.GetObjectAt
 	if objParts != nil {
 		if objParts.PartNumberMarker != nil {
 			partNumberMarker, err := strconv.Atoi(*objParts.PartNumberMarker)
-			if err != nil {
+			if err == nil {
 				parts.PartNumberMarker = partNumberMarker
 			}
 			if objParts.NextPartNumberMarker != nil {
 				nextPartNumberMarker, err := strconv.Atoi(*objParts.NextPartNumberMarker)
-				if err != nil {
+				if err == nil {
 					parts.NextPartNumberMarker = nextPartNumberMarker
 				}
 			}
